@@ -92,6 +92,7 @@ class Interp:
         self.sink = None
         self.unknown = []       # constructs outside the fragment (reported as inconclusive by rules that need them)
         self.config = config or {}
+        self.aliases = []
         ENUM_CLASSES.update(c for c in repo.classes if self._is_enum(c))
 
     def _is_enum(self, cname):
@@ -263,6 +264,14 @@ class Interp:
 
     # ---- calls ---------------------------------------------------------------------
     def call(self, n, fr):
+        t = self._call(n, fr)
+        for f in self.aliases:
+            r = f(t)
+            if r is not None:
+                return r
+        return t
+
+    def _call(self, n, fr):
         f = n.func
         args = [self.ex(a, fr) for a in n.args if not isinstance(a, ast.Starred)]
         if any(isinstance(a, ast.Starred) for a in n.args):
@@ -399,10 +408,23 @@ class Interp:
 
     # ---- statements ----------------------------------------------------------------
     def block(self, stmts, fr):
-        for s in stmts:
+        for i, s in enumerate(stmts):
             if fr.ctrl:
                 break
             self.stmt(s, fr)
+            # `if c: ...; continue` (or break/return in one branch): the rest of the block runs only on the other branch
+            if isinstance(s, ast.If) and self.sink and self.sink[-1].kind == 'if' and self.sink[-1].line == s.lineno:
+                e = self.sink[-1]
+                c1, c2 = e.ctrl
+                rest = stmts[i + 1:]
+                if rest and ((c1 and not c2) or (c2 and not c1)):
+                    g = NOT(e.cond) if c1 else e.cond
+                    fr.guards.append(g)
+                    body = self.sub(rest, fr)
+                    fr.guards.pop()
+                    self.emit(Eff('if', fr.func, s, cond=g, then=body, orelse=[], ctrl=(fr.ctrl, None), synthetic=True))
+                    fr.ctrl = None
+                    break
 
     def sub(self, stmts, fr):
         """Translate stmts into a fresh effect list."""
@@ -476,8 +498,7 @@ class Interp:
             g = AND(*fr.guards) if fr.guards else TRUE
             fr.returns.append((g, v, fr.loopdepth > 0))
             self.emit(Eff('return', fr.func, s, value=v))
-            if not fr.guards or all(x == TRUE for x in fr.guards):
-                fr.ctrl = 'return'
+            fr.ctrl = 'return'
             return
         if isinstance(s, ast.If):
             return self.stmt_if(s, fr)
@@ -509,8 +530,7 @@ class Interp:
             return
         if isinstance(s, ast.Raise):
             self.emit(Eff('raise', fr.func, s, value=self.ex(s.exc, fr) if s.exc else NONE))
-            if not fr.guards:
-                fr.ctrl = 'return'
+            fr.ctrl = 'return'
             return
         raise Unknown('statement ' + type(s).__name__ + ' at %s:%d' % (fr.func.relpath, s.lineno))
 
@@ -567,6 +587,10 @@ class Interp:
     def accumulate(self, name, op, index, val, fr, s):
         if self.is_outer(name, fr):
             self.emit(Eff('acc', fr.func, s, var=name, op=op, index=index, value=val))
+            cur = fr.env.get(name)
+            if cur is not None and cur[0] in ('carried', 'prefix') and op in ('add', 'sub') and fr.loops and cur[2] == fr.loops[-1]:
+                # a later read in this iteration sees the running value including this element
+                fr.env[name] = ('prefix', name, cur[2], True)
             return
         cur = fr.env[name]
         if op == 'add':
